@@ -7,6 +7,7 @@ import (
 	"io"
 	"net"
 	"net/http"
+	"net/url"
 	"strings"
 	"sync"
 	"syscall"
@@ -432,7 +433,12 @@ func newEnv(root string) (*env, error) {
 					// --log-http: the logger is a response modifier whatever the log sink is
 					cfg.LogHTTPMode = httplog.Mode(logMode)
 				}
+				if authProxies[name] {
+					// --basic-auth: the parser of Proxy-Authorization runs on every request (fields.go)
+					cfg.BasicAuth = url.UserPassword(authUser, authPass)
+				}
 			},
+			Credentials: credentialsFor(name),
 		})
 		e.proxies[name] = p
 		return err
@@ -453,6 +459,8 @@ func newEnv(root string) (*env, error) {
 		{"srst", "srst", false, false, nil}, {"srstmitm", "srst", true, false, nil},
 		// the same proxy served through martian's http.Handler (no interception there)
 		{"hdirect", "", false, false, nil}, {"hup", "up", false, false, nil}, {"htls", "", false, true, nil},
+		// started with --basic-auth and --credentials: the proxy parses Proxy-Authorization / looks at Authorization (fields.go)
+		{"auth", "", false, false, nil}, {"authmitm", "", true, false, nil}, {"authtls", "", false, true, nil}, {"hauth", "", false, false, nil},
 	} {
 		if err := mk(pd.name, pd.up, pd.mitm, pd.tls, handlerProxies[pd.name], pd.reg, ""); err != nil {
 			return nil, fmt.Errorf("proxy %s: %w", pd.name, err)
@@ -471,7 +479,7 @@ func newEnv(root string) (*env, error) {
 }
 
 // handlerProxies are the instances served through martian's http.Handler (HTTPProxyConfig.TestingHTTPHandler).
-var handlerProxies = map[string]bool{"hdirect": true, "hup": true, "htls": true}
+var handlerProxies = map[string]bool{"hdirect": true, "hup": true, "htls": true, "hauth": true}
 
 // promNamespace is the metrics namespace of every proxy instance (command/run: the same for transport and proxy).
 const promNamespace = "fwdverif"
@@ -493,6 +501,13 @@ func (e *env) proxyFor(c *Case) (string, *rig.Proxy) {
 	switch {
 	case c.LogMode != "":
 		name = logProxyName(c.LogMode, c.Server == "handler")
+	case c.Kind == "client" && c.Auth != "":
+		name = authProxyName(c.Via, c.Server == "handler")
+	case c.Kind == "client" && c.Upstream == "up":
+		name = map[string]string{"plain": "up", "mitm": "upmitm"}[c.Via]
+		if c.Server == "handler" {
+			name = "hup"
+		}
 	case c.Server == "handler" && c.Kind == "client" && c.Via == "tls":
 		name = "htls"
 	case c.Server == "handler" && c.Kind == "client":
